@@ -123,6 +123,9 @@ def run(chk, prog):
                         "buffers, descriptors, pipes or queues shared between tunnels let bytes of one connection appear in another" % (s["path"], ty[:100]))
     chk.floor("O1", ns, 1, "statics enumerated")
 
+    # WIRE: encoder/decoder layout agreement of the SOCKS messages
+    shared.rule_wire(chk, prog)
+
     # BUF: the relay buffer has at least one byte.  copy_half sizes its buffer (and the splice length) from IoParams.buffer_size and
     # treats a read of 0 bytes as end of stream; a configured size of 0 makes every read return 0, so no byte is ever relayed.
     # Every store into GlobalState.io_params must sit behind the non-zero side of a test of that field.
